@@ -118,6 +118,15 @@ def draw_probe_class():
     class DrawProbe(Probe):
         rec: Recorder | None = None
         size_wh = (2, 1)
+        fail_finalize = False  # the finalizer hook of a renderable subclass may raise
+        finalize_raised = False
+
+        @classmethod
+        def _finalize_render_data_(cls, render_data):
+            super()._finalize_render_data_(render_data)
+            if DrawProbe.fail_finalize:
+                DrawProbe.finalize_raised = True
+                raise InjectedError("injected fault in _finalize_render_data_")
 
         def _get_render_size_(self):
             from term_image.geometry import Size
@@ -141,8 +150,10 @@ def run_new(case: dict, fault=None) -> dict:
     from .env import stubs
 
     stubs.set_term(size=(case["cols"], case["rows"]))
-    rec = Recorder(fault)
+    hook = (fault or {}).get("hook")
+    rec = Recorder(None if hook else fault)
     DrawProbe = draw_probe_class()
+    DrawProbe.fail_finalize, DrawProbe.finalize_raised = hook == "finalize", False
     p = DrawProbe(case["frames"])
     p.size_wh = (case["rw"], case["rh"])
     p.rec = rec
@@ -180,6 +191,7 @@ def run_new(case: dict, fault=None) -> dict:
             outcome = type(e).__name__
     finally:
         sys.stdout = old
+        DrawProbe.fail_finalize = False
     gc.collect()
     after = termios.tcgetattr(pty_slave())
     termios.tcsetattr(pty_slave(), termios.TCSANOW, pristine)
@@ -191,7 +203,7 @@ def run_new(case: dict, fault=None) -> dict:
         "attrs_equal": after == before,
         "fin": fins,
         "state_same": p.tell() == tell0 and tuple(p.render_size) == size0,
-        "fired": rec.fired,
+        "fired": DrawProbe.finalize_raised if hook else rec.fired,
         "stale": any(r[5] for r in p.renders),
     }
 
